@@ -170,6 +170,12 @@ def r3(repo, chk):
     h = Fn(repo, CONN + "_handle_new_connection_id_frame")
     rpt = [(st, v) for st, t, v in h.assigns(chain="self._peer_retire_prior_to")]
     ok = len(rpt) == 1 and isinstance(rpt[0][1], ast.Call) and call_name(rpt[0][1]) == "max" and {norm(a) for a in rpt[0][1].args} == {"retire_prior_to", "self._peer_retire_prior_to"}
+    if len(rpt) == 1 and not ok:
+        # the same thing as a guarded assignment: only a larger value is stored
+        ok = norm(rpt[0][1]) == "retire_prior_to" and natom("retire_prior_to > self._peer_retire_prior_to") in h.lexical_guards(rpt[0][0], expand=False) and len(h.lexical_guards(rpt[0][0], expand=False)) == 1
+        if ok:
+            holder = rpt[0][0]._parent
+            rpt = [(holder, rpt[0][1])]  # ordering obligations refer to the whole conditional
     chk.ob("R3", "retire-prior-to only ever increases", ok, "", h.loc(h.node))
     others = [fn.qual for fn in _conn_fns(repo) for st, t, v in fn.assigns(chain="self._peer_retire_prior_to") if fn.qual.split(".")[-1] not in ("__init__", "_handle_new_connection_id_frame")]
     chk.ob("R3", "retire-prior-to has no other writer", not others, f"{others}", "")
